@@ -530,6 +530,7 @@ def frame_rule(prog, run):
 
 
 def check(prog, run):
+    astq.shortcut_obligations(prog, run, ["functions.gen.pre_multisetup"])
     run.rule("R-inv", "the representation invariant holds after __init__ and is preserved by decimate/detrend/filter/rollback from an arbitrary invariant state (both setup classes)", 40)
     run.rule("R-post", "post-conditions: decimate => fs/q and count/q; detrend/filter => sampling attributes unchanged, data processed once more; rollback => initial values; add_algorithms binds current data/fs", 30)
     run.rule("R-no-alias", "initial copies are distinct objects from the user's arrays and, after rollback, from the live data", 4)
